@@ -261,6 +261,25 @@ impl ParseState {
 		res.ports@.len() == self.game.frames.ports@.len() && (forall|k: int| 0 <= k < self.game.frames.ports@.len() ==> port_row_eq(#[trigger] &self.game.frames.ports@[k], &res.ports@[k], idx as int)),
 		(res.start is Some) == ver(self).ge(2, 2), (res.end is Some) == ver(self).ge(3, 0), (res.items is Some) == ver(self).ge(3, 0) /*[C13.in_progress_absent_fields_by_version]*/,
 //@end
+// the accessors the incremental API reports through (property C12: the reported consumed-byte count, the frames so far)
+//@fn src/io/slippi/de.rs | impl ParseState | bytes_read | ret=res
+	ensures res == self.bytes_read /*[C12.reported_count_is_the_counter]*/,
+//@end
+//@fn src/io/slippi/de.rs | impl ParseState | frames | ret=res
+	ensures *res == self.game.frames /*[C12.frames_view_is_the_columns]*/,
+//@end
+//@fn src/io/slippi/de.rs | impl game::Game for ParseState | len | ret=res | twin=__view
+	ensures res == self.game.frames.id@.len() /*[C12.len_is_the_row_count]*/,
+//@end
+//@fn src/io/slippi/de.rs | impl game::Game for ParseState | start | ret=res | twin=__view
+	ensures *res == self.game.start /*[C12.start_view_is_the_parsed_start]*/,
+//@end
+//@fn src/io/slippi/de.rs | impl game::Game for ParseState | end | ret=res | twin=__view
+	ensures *res == self.game.end /*[C12.end_view_is_the_parsed_end]*/,
+//@end
+//@fn src/io/slippi/de.rs | impl game::Game for ParseState | gecko_codes | ret=res | twin=__view
+	ensures *res == self.game.gecko_codes /*[C12.gecko_view_is_the_parsed_list]*/,
+//@end
 //@fn src/io/slippi/de.rs | impl ParseState | last_id | ret=res | rules=R6b | sub=/self.game.frames.id.values().last().map(|id| *id)/(match self.game.frames.id.values().last() { Some(id) => Some(*id), None => None })/
 	ensures res == last_id_spec(self),
 //@end
